@@ -911,6 +911,60 @@ def check_http_request(ctx):
 # --------------------------------------------------------------------------------------------
 # C14: allocation failure inside an HTTP request
 
+SRC_SSL = ["http/https.c", "netbuf/netbuf_ssl.c", "network_ssl/network_ssl.c", "network_ssl/network_ssl_compat.c"]
+
+
+def check_https_setup_allocfail(ctx):
+    """https_request(): the HTTPS entry point duplicates the host name, then runs the same set-up as
+    http_request with the copy; whoever fails must release exactly what it owns (seed C14-l: the copy freed
+    by both).  Every allocation of the set-up is refused, once and from there on; a request that does come
+    into being is cancelled at once (no TLS is spoken)."""
+    sub = "http.https-setup-allocfail"
+    exe, err = vlib.build_c("drv_http_ssl_asan", "drv_http.c", SRC + SRC_SSL, extra_sources=["wrap_http.c"], wraps=WRAPS,
+                            asan=True, cflags=["-DDRV_HTTPS", "-Wno-deprecated-declarations"], ldflags=["-lssl", "-lcrypto"],
+                            per_file_flags={"http/http.c": ["-fno-sanitize=nonnull-attribute", "-fno-builtin"]})
+    if not exe:
+        ctx.fail(sub, "build", "", "C driver (HTTPS set-up) does not build: " + (err or "")[-1500:])
+        return
+    r = ctx.rng
+    bases = [case_line(valid_stream(r, "clen", b"x"), 100, segs="-") + " https=1",
+             case_line(valid_stream(r, "clen", b"x"), 100, segs="-", body=b"req" * 100, hdrs=[(b"Host", b"x"), (b"A", b"b")]) + " https=1"]
+    sem0, health0, st0 = run_impl(exe, bases)
+    cases = []
+    for b, a, h in zip(bases, sem0, health0):
+        m = re.match(r"allocs=(\d+)", h)
+        p = parse_sem(a)
+        if not m or health_problem(h) or p is None or p["ret"] != "ok":
+            ctx.fail(sub, "property", b, "baseline run not clean: %s | %s" % (a[:100], h), property_fails=True)
+            continue
+        for k in range(1, int(m.group(1)) + 2):
+            cases += [b + " failat=%d" % k, b + " failfrom=%d" % k]
+            ctx.count("c14.https-setup.failure-index")
+    sem, health, st = run_impl(exe, cases)
+    san = first_sanitizer_line(st)
+    nbad = 0
+    for c, a, h in zip(cases, sem, health):
+        problems = []
+        hp = health_problem(h)
+        if hp:
+            problems.append(hp + ((" [" + san + "]") if san else ""))
+        p = parse_sem(a)
+        if p is None:
+            if not hp:
+                problems.append("unparsable: " + a[:100])
+        elif p["cbs"] != 0:
+            problems.append("callback made during set-up / cancel")
+        if problems:
+            nbad += 1
+            if nbad <= 4:
+                ctx.fail(sub, "property", c, "; ".join(problems)[:500] + " || impl=" + a[:160] + " | " + h, property_fails=True)
+    ctx.record(sub, cases, set(zip(cases, sem)),
+               "https_request set-up (real https.c, netbuf_ssl.c, network_ssl.c linked) with the k-th allocation refused, every "
+               "k, once / from k on; a request that exists is cancelled immediately: NULL or a handle, no crash, no sanitizer "
+               "report (double free), nothing live afterwards, no callback",
+               samples=[cases[0][:200]] if cases else [])
+
+
 def check_http_allocfail(ctx):
     sub = "http.allocfail"
     exe, mexe = _build(ctx, sub)
@@ -1070,4 +1124,4 @@ def check_http_limits(ctx):
 
 
 SUBCHECKS = {"C08": [check_http_safety, check_http_oversize], "C09": [check_http_limits, check_http_decode, check_http_request],
-             "C14": [check_http_allocfail]}
+             "C14": [check_http_allocfail, check_https_setup_allocfail]}
